@@ -481,8 +481,36 @@ mod boxed {
   // 0111 1111 1111 1100 0000 0000 0000 0000 0000 0000 0000 0000 0000 0000 0000 0100
   pub const VALUE_UNDEFINED: Value = Value(TAG_UNDEFINED);
 
-  #[derive(PartialEq, Eq, Hash, Copy, Clone, Debug)]
+  #[derive(Copy, Clone, Debug)]
   pub struct Value(u64);
+
+  impl PartialEq for Value {
+    /// Numbers compare as IEEE numbers (0 == -0, NaN != NaN) as they do
+    /// in the unboxed representation, every other value compares by its bits
+    #[inline]
+    fn eq(&self, other: &Value) -> bool {
+      if self.is_num() && other.is_num() {
+        self.to_num() == other.to_num()
+      } else {
+        self.0 == other.0
+      }
+    }
+  }
+
+  impl Eq for Value {}
+
+  impl std::hash::Hash for Value {
+    /// Hash numbers by their truncated value, as the unboxed representation
+    /// does, so every pair of equal numbers hashes the same
+    #[inline]
+    fn hash<H: std::hash::Hasher>(&self, state: &mut H) {
+      if self.is_num() {
+        (self.to_num() as u64).hash(state);
+      } else {
+        self.0.hash(state);
+      }
+    }
+  }
 
   impl Value {
     #[inline]
